@@ -318,6 +318,7 @@ func (p *lineParser) stmts() []rawStmt {
 type inst struct {
 	g     *genFile
 	comps map[int]*run.Node
+	hosts map[int]*run.Node
 	seen  map[int]bool
 	errs  []string
 }
@@ -325,6 +326,7 @@ type inst struct {
 var (
 	reTemplCall = regexp.MustCompile(`^(\w+)\(v\)$`)
 	reComp      = regexp.MustCompile(`^\w+\.C\((\d+)\)$`)
+	reHost      = regexp.MustCompile(`^\w+\.K\((\d+)\)$`)
 	reOnce      = regexp.MustCompile(`^v\.H\((\d+)\)\.Once\(\)$`)
 	reRaw       = regexp.MustCompile(`^templ\.Raw\((".*")\)$`)
 	reJoin      = regexp.MustCompile(`^templ\.Join\((.*)\)$`)
@@ -391,6 +393,19 @@ func (in *inst) call(callee, blockVar, chVar string, children *run.Node) *run.No
 			return n
 		}
 		return &run.Node{K: "nop"}
+	case reHost.MatchString(callee):
+		// a hand-written component that is passed the block: what it does with it is the job's host description
+		k, _ := strconv.Atoi(reHost.FindStringSubmatch(callee)[1])
+		h, ok := in.hosts[k]
+		if !ok {
+			return &run.Node{K: "nop"}
+		}
+		n := *h
+		n.Kids = nil
+		if blk != nil {
+			n.Kids = blk().Kids
+		}
+		return &n
 	case callee == "templ.Flush()":
 		n := &run.Node{K: "flush"}
 		if blk != nil {
@@ -428,8 +443,8 @@ func (in *inst) call(callee, blockVar, chVar string, children *run.Node) *run.No
 }
 
 // modelOfProbe returns the model program of a compiled probe for the given hand-built components.
-func modelOfProbe(g *genFile, name string, comps map[int]*run.Node) (*run.Node, []string) {
-	in := &inst{g: g, comps: comps, seen: map[int]bool{}}
+func modelOfProbe(g *genFile, name string, comps map[int]*run.Node, hosts map[int]*run.Node) (*run.Node, []string) {
+	in := &inst{g: g, comps: comps, hosts: hosts, seen: map[int]bool{}}
 	n := in.template(name, nil)
 	return n, in.errs
 }
